@@ -3,6 +3,7 @@ package interp
 import (
 	"fmt"
 	"go/types"
+	"sort"
 	"strings"
 
 	"verif/gosym/sym"
@@ -285,11 +286,76 @@ func registerEnv(ip *Interp) {
 		}
 		return Tuple{v.(Iface).V, Iface{}}
 	})
-	// dirhash.HashDir: arbitrary but fixed text per directory
+	// golang.org/x/mod/sumdb/dirhash over the filesystem model: the "hash" of a
+	// file list is a fixed text listing the (sorted) names - injective in the set
+	// of names, blind to contents (contents of package files do not change within
+	// one run of a harness). HashDir(dir) = Hash1(DirFiles(dir)).
+	listDir := func(ip *Interp, dir, prefix string) []string {
+		var out []string
+		for f := range ip.fs.files {
+			if strings.HasPrefix(f, dir+"/") && !strings.HasSuffix(f, "/") {
+				out = append(out, prefix+"/"+f[len(dir)+1:])
+			}
+		}
+		sort.Strings(out)
+		return out
+	}
+	hashOf := func(files []string) string {
+		fs := append([]string(nil), files...)
+		sort.Strings(fs)
+		return "h1:stub:" + strings.Join(fs, ",")
+	}
 	ip.regStub("golang.org/x/mod/sumdb/dirhash.HashDir", func(ip *Interp, fr *frame, a []Value) Value {
 		dir, _ := a[0].(Str).Concrete()
-		return Tuple{mkStr(ip.ctx, "h1:stub:"+dir), Iface{}}
+		prefix, _ := a[1].(Str).Concrete()
+		return Tuple{mkStr(ip.ctx, hashOf(listDir(ip, dir, prefix))), Iface{}}
 	})
+	ip.regStub("golang.org/x/mod/sumdb/dirhash.DirFiles", func(ip *Interp, fr *frame, a []Value) Value {
+		dir, _ := a[0].(Str).Concrete()
+		prefix, _ := a[1].(Str).Concrete()
+		names := listDir(ip, dir, prefix)
+		arr := make([]Value, len(names))
+		for i, n := range names {
+			arr[i] = mkStr(ip.ctx, n)
+		}
+		return Tuple{Slice{Arr: &arr, Len: len(arr), Cap: len(arr)}, Iface{}}
+	})
+	ip.regStub("golang.org/x/mod/sumdb/dirhash.Hash1", func(ip *Interp, fr *frame, a []Value) Value {
+		sl := a[0].(Slice)
+		var names []string
+		for i := 0; i < sl.Len; i++ {
+			n, ok := (*sl.at(i)).(Str).Concrete()
+			if !ok {
+				panic(unsupported("dirhash.Hash1 with symbolic file names"))
+			}
+			names = append(names, n)
+		}
+		return Tuple{mkStr(ip.ctx, hashOf(names)), Iface{}}
+	})
+	// sort.Slice / sort.SliceStable: insertion sort driven by the interpreted less
+	// function (a valid outcome of the unstable sort; the order of elements that
+	// compare equal is unspecified in Go and follows the input order here)
+	sortSlice := func(ip *Interp, fr *frame, a []Value) Value {
+		sl, ok := a[0].(Iface).V.(Slice)
+		if !ok {
+			ip.rtPanic("sort.Slice: argument is not a slice")
+		}
+		less := a[1]
+		for i := 1; i < sl.Len; i++ {
+			for j := i; j > 0; j-- {
+				r := ip.call(fr, less, []Value{ip.intC(int64(j)), ip.intC(int64(j - 1))})
+				if !ip.truth(r) {
+					break
+				}
+				x, y := copyVal(*sl.at(j)), copyVal(*sl.at(j - 1))
+				ip.storeAt(sl.at(j), y)
+				ip.storeAt(sl.at(j-1), x)
+			}
+		}
+		return nil
+	}
+	ip.reg("sort.Slice", sortSlice)
+	ip.reg("sort.SliceStable", sortSlice)
 	vs("ParsedSources", func(ip *Interp, fr *frame, a []Value) Value {
 		arr := make([]Value, 0, len(ip.parsed))
 		for _, p := range ip.parsed {
